@@ -1,5 +1,7 @@
 import VtModel.Mvt
 import VtProofs.Prim
+import VtProofs.MvtTables
+import VtProofs.MvtOps
 /-!
 # C10 – merging vector tiles concatenates the features of equally named layers
 
@@ -13,7 +15,7 @@ Model: `VtModel.Mvt.mergedTile` (= `get_tile_data` of the operation on already d
 blobs; `None` for a source without the tile).
 -/
 namespace VtProps.C10
-open VtModel VtModel.Prim VtModel.Mvt
+open VtModel VtModel.Prim VtModel.Mvt VtProofs.MvtTables VtProofs.MvtOps
 
 /-- The merged output is absent exactly when no source has a tile (and a present output is never
     produced from nothing). -/
@@ -46,5 +48,308 @@ theorem merge_exists_some (srcs : List (Option Bytes)) (b : Bytes) (hb : some b 
   simp at this
 
 example : mergedTile [none, none] = .ok none := by decide
+
+/-! ## layers and features of the merged tile -/
+
+def names (ls : List Layer) : List Bytes := ls.map (·.name)
+
+/-- semantic features of a layer (`none`: some tag points outside the tables – not a valid layer) -/
+def semF (l : Layer) : Option (List SemFeature) := semFeatures l.keys l.vals l.features
+
+/-- specification: the features of a list of layers, concatenated in order -/
+def concatSem : List Layer → Option (List SemFeature)
+  | [] => some []
+  | l :: t =>
+    match semF l, concatSem t with
+    | some a, some b => some (a ++ b)
+    | _, _ => none
+
+/-- the incoming layers called `n`, in source order -/
+def sel (n : Bytes) (ins : List Layer) : List Layer := ins.filter (fun l => l.name = n)
+
+theorem concatSem_append (a b : List Layer) (x y : List SemFeature) (ha : concatSem a = some x)
+    (hb : concatSem b = some y) : concatSem (a ++ b) = some (x ++ y) := by
+  induction a generalizing x with
+  | nil => simp [concatSem] at ha; subst ha; simpa using hb
+  | cons l t ih =>
+    simp only [concatSem, List.cons_append] at ha ⊢
+    cases h1 : semF l with
+    | none => simp [h1] at ha
+    | some s =>
+      cases h2 : concatSem t with
+      | none => simp [h1, h2] at ha
+      | some r =>
+        simp [h1, h2] at ha
+        subst ha
+        rw [ih r h2]
+        simp
+
+/-- **`add_from_layer`**: the target keeps its header and its own features (with their property sets),
+    followed by the source layer's features in order, each with its id, geometry type, geometry bytes
+    and property set – although the two layers use different key/value tables. -/
+theorem addFromLayer_features (tgt src tgt' : Layer) (old : List SemFeature) (hold : semF tgt = some old)
+    (h : addFromLayer tgt src = .ok tgt') :
+    tgt'.name = tgt.name ∧ tgt'.extent = tgt.extent ∧ tgt'.version = tgt.version ∧
+    ∃ new, semF src = some new ∧ semF tgt' = some (old ++ new) :=
+  addFeatures_sem src src.features tgt tgt' old hold h
+
+/-- what `layers.get_mut(name)` / `insert` do to the list of layers -/
+theorem mergeLayer_cases : ∀ (acc acc' : List Layer) (nl : Layer), mergeLayer acc nl = .ok acc' →
+    (nl.name ∉ names acc ∧ acc' = acc ++ [nl]) ∨
+    (∃ pre l post l', acc = pre ++ l :: post ∧ l.name = nl.name ∧ (∀ x ∈ pre, x.name ≠ nl.name) ∧
+      addFromLayer l nl = .ok l' ∧ acc' = pre ++ l' :: post) := by
+  intro acc
+  induction acc with
+  | nil => intro acc' nl h; simp [mergeLayer] at h; subst h; left; simp [names]
+  | cons x t ih =>
+    intro acc' nl h
+    simp only [mergeLayer] at h
+    split at h
+    · rename_i hx
+      cases ha : addFromLayer x nl with
+      | err => simp [ha] at h
+      | panic => simp [ha] at h
+      | ok x' =>
+        simp [ha] at h
+        subst h
+        right
+        exact ⟨[], x, t, x', by simp, hx, by simp, ha, by simp⟩
+    · rename_i hx
+      cases hm : mergeLayer t nl with
+      | err => simp [hm] at h
+      | panic => simp [hm] at h
+      | ok t' =>
+        simp [hm] at h
+        subst h
+        rcases ih t' nl hm with ⟨hn, he⟩ | ⟨pre, l, post, l', he, hl, hpre, ha, he'⟩
+        · left
+          refine ⟨?_, by simp [he]⟩
+          simp only [names, List.map_cons, List.mem_cons, not_or]
+          exact ⟨fun e => hx e.symm, hn⟩
+        · right
+          refine ⟨x :: pre, l, post, l', by simp [he], hl, ?_, ha, by simp [he']⟩
+          intro y hy
+          simp at hy
+          rcases hy with e | e
+          · subst e; exact hx
+          · exact hpre y e
+
+/-- invariant of the accumulated layers w.r.t. the layers merged so far -/
+def Inv (acc pre : List Layer) : Prop :=
+  (names acc).Nodup ∧ (∀ n, n ∈ names acc ↔ n ∈ names pre) ∧
+  ∀ l ∈ acc, ∃ s, semF l = some s ∧ concatSem (sel l.name pre) = some s
+
+theorem sel_append_ne (n : Bytes) (pre : List Layer) (nl : Layer) (h : nl.name ≠ n) :
+    sel n (pre ++ [nl]) = sel n pre := by
+  simp [sel, List.filter_append, h]
+
+theorem sel_append_eq (pre : List Layer) (nl : Layer) :
+    sel nl.name (pre ++ [nl]) = sel nl.name pre ++ [nl] := by
+  simp [sel, List.filter_append]
+
+theorem sel_nil_of_not_mem (n : Bytes) (pre : List Layer) (h : n ∉ names pre) : sel n pre = [] := by
+  simp only [sel, List.filter_eq_nil_iff]
+  intro l hl
+  simp only [decide_eq_true_eq]
+  intro e
+  exact h (by simp only [names, List.mem_map]; exact ⟨l, hl, e⟩)
+
+theorem inv_step (acc pre acc' : List Layer) (nl : Layer) (hinv : Inv acc pre)
+    (hv : ∃ s, semF nl = some s) (h : mergeLayer acc nl = .ok acc') : Inv acc' (pre ++ [nl]) := by
+  obtain ⟨hnd, hmem, hsem⟩ := hinv
+  obtain ⟨snl, hsnl⟩ := hv
+  rcases mergeLayer_cases acc acc' nl h with ⟨hn, he⟩ | ⟨p1, l, p2, l', he, hl, hpre, ha, he'⟩
+  · subst he
+    refine ⟨?_, ?_, ?_⟩
+    · simp only [names, List.map_append, List.map_cons, List.map_nil]
+      rw [List.nodup_append]
+      refine ⟨hnd, by simp, ?_⟩
+      intro a ha b hb
+      simp at hb
+      subst hb
+      intro e
+      subst e
+      exact hn ha
+    · intro n
+      simp only [names, List.map_append, List.map_cons, List.map_nil, List.mem_append, List.mem_singleton]
+      have := hmem n
+      simp only [names] at this
+      rw [this]
+    · intro x hx
+      simp only [List.mem_append, List.mem_singleton] at hx
+      rcases hx with hx | hx
+      · obtain ⟨s, h1, h2⟩ := hsem x hx
+        have hne : nl.name ≠ x.name := by
+          intro e
+          apply hn
+          rw [e]
+          simp only [names, List.mem_map]
+          exact ⟨x, hx, rfl⟩
+        exact ⟨s, h1, by rw [sel_append_ne _ _ _ hne]; exact h2⟩
+      · subst hx
+        have hnp : x.name ∉ names pre := fun hc => hn ((hmem _).mpr hc)
+        refine ⟨snl, hsnl, ?_⟩
+        rw [sel_append_eq, sel_nil_of_not_mem _ _ hnp]
+        simp [concatSem, hsnl]
+  · subst he he'
+    have hlmem : l ∈ p1 ++ l :: p2 := by simp
+    obtain ⟨sl, hsl1, hsl2⟩ := hsem l hlmem
+    obtain ⟨hn', _, _, new, hnew, hres⟩ := addFromLayer_features l nl l' sl hsl1 ha
+    have hnew' : new = snl := by rw [hsnl] at hnew; exact (Option.some.inj hnew).symm
+    subst hnew'
+    have hnames : names (p1 ++ l' :: p2) = names (p1 ++ l :: p2) := by
+      simp [names, hn']
+    refine ⟨by rw [hnames]; exact hnd, ?_, ?_⟩
+    · intro n
+      rw [hnames]
+      have h1 := hmem n
+      have hnl : nl.name ∈ names (p1 ++ l :: p2) := by simp [names, hl]
+      have h3 : n ∈ names (pre ++ [nl]) ↔ n ∈ names pre ∨ n = nl.name := by simp [names]
+      rw [h3, ← h1]
+      constructor
+      · intro hh; exact Or.inl hh
+      · intro hh
+        rcases hh with hh | hh
+        · exact hh
+        · subst hh; exact hnl
+    · intro x hx
+      -- every other layer has a different name (names are distinct)
+      have hother : ∀ y, y ∈ p1 ∨ y ∈ p2 → y.name ≠ nl.name := by
+        intro y hy
+        rcases hy with hy | hy
+        · exact hpre y hy
+        · intro e
+          have hnd' := hnd
+          simp only [names, List.map_append, List.map_cons] at hnd'
+          rw [List.nodup_append] at hnd'
+          obtain ⟨_, h2, _⟩ := hnd'
+          rw [List.nodup_cons] at h2
+          apply h2.1
+          rw [hl, ← e]
+          simp only [List.mem_map]
+          exact ⟨y, hy, rfl⟩
+      simp only [List.mem_append, List.mem_cons] at hx
+      rcases hx with hx | hx | hx
+      · obtain ⟨s, h1, h2⟩ := hsem x (by simp [hx])
+        exact ⟨s, h1, by rw [sel_append_ne _ _ _ (fun e => hother x (Or.inl hx) e.symm)]; exact h2⟩
+      · subst hx
+        refine ⟨sl ++ new, hres, ?_⟩
+        rw [hn', hl, sel_append_eq]
+        rw [hl] at hsl2
+        exact concatSem_append _ _ _ _ hsl2 (by simp [concatSem, hsnl])
+      · obtain ⟨s, h1, h2⟩ := hsem x (by simp [hx])
+        exact ⟨s, h1, by rw [sel_append_ne _ _ _ (fun e => hother x (Or.inr hx) e.symm)]; exact h2⟩
+
+theorem inv_mergeLayers : ∀ (ins acc pre acc' : List Layer), Inv acc pre →
+    (∀ l ∈ ins, ∃ s, semF l = some s) → mergeLayers acc ins = .ok acc' → Inv acc' (pre ++ ins) := by
+  intro ins
+  induction ins with
+  | nil => intro acc pre acc' hinv _ h; simp [mergeLayers] at h; subst h; simpa using hinv
+  | cons nl t ih =>
+    intro acc pre acc' hinv hv h
+    simp only [mergeLayers] at h
+    cases hm : mergeLayer acc nl with
+    | err => simp [hm] at h
+    | panic => simp [hm] at h
+    | ok acc1 =>
+      simp only [hm] at h
+      have h1 := inv_step acc pre acc1 nl hinv (hv nl (by simp)) hm
+      have := ih acc1 (pre ++ [nl]) acc' h1 (fun l hl => hv l (by simp [hl])) h
+      simpa using this
+
+/-- **C10 (layers and features).**  Merging the layers `ins` (the layers of all source tiles, in
+    source order) into an empty map succeeds only with a result that has
+    * exactly one layer per distinct layer name occurring in the inputs, and
+    * in each layer the features of all equally named input layers, concatenated in source order,
+      each with its original id, geometry type, geometry bytes and property set
+    (for inputs whose tags are valid, whatever their key/value tables look like). -/
+theorem merge_layers_features (ins out : List Layer) (hv : ∀ l ∈ ins, ∃ s, semF l = some s)
+    (h : mergeLayers [] ins = .ok out) :
+    (names out).Nodup ∧ (∀ n, n ∈ names out ↔ n ∈ names ins) ∧
+    ∀ l ∈ out, ∃ s, semF l = some s ∧ concatSem (sel l.name ins) = some s := by
+  have hinv0 : Inv [] [] := ⟨by simp [names], by simp [names], by simp⟩
+  have := inv_mergeLayers ins [] [] out hinv0 hv h
+  simp only [List.nil_append] at this
+  exact this
+
+example :
+    let l1 : Layer := { extent := 4096, features := [{ id := some 1, tags := [0, 0], gtype := 1, geom := [9] }],
+                        name := [114], keys := [[107]], vals := [.uint 5], version := 1 }
+    let l2 : Layer := { extent := 512, features := [{ id := none, tags := [1, 1], gtype := 2, geom := [] }],
+                        name := [114], keys := [[120], [107]], vals := [.bool true, .int 5], version := 2 }
+    (mergeLayers [] [l1, l2]).map (fun ls => ls.map dumpLayer) = .ok ["72:4096:1:1,1,09,6b=u5/-,2,-,6b=i5"] := by
+  decide
+
+/-! ## from source blobs to the merged tile -/
+
+/-- all source blobs decoded, in source order -/
+def decodeAll : List Bytes → Outcome (List Tile)
+  | [] => .ok []
+  | b :: t =>
+    match decodeTile b with
+    | .ok x =>
+      match decodeAll t with
+      | .ok xs => .ok (x :: xs)
+      | .err => .err
+      | .panic => .panic
+    | .err => .err
+    | .panic => .panic
+
+theorem mergeLayers_append : ∀ (a : List Layer) (acc b out : List Layer),
+    mergeLayers acc (a ++ b) = .ok out ↔ ∃ mid, mergeLayers acc a = .ok mid ∧ mergeLayers mid b = .ok out := by
+  intro a
+  induction a with
+  | nil => intro acc b out; simp [mergeLayers]
+  | cons x t ih =>
+    intro acc b out
+    simp only [List.cons_append, mergeLayers]
+    cases hm : mergeLayer acc x with
+    | ok acc1 => simp only; exact ih acc1 b out
+    | err => simp
+    | panic => simp
+
+theorem mergeBlobs_layers : ∀ (blobs : List Bytes) (acc out : List Layer), mergeBlobs acc blobs = .ok out →
+    ∃ ts, decodeAll blobs = .ok ts ∧ mergeLayers acc (ts.flatMap (·.layers)) = .ok out := by
+  intro blobs
+  induction blobs with
+  | nil => intro acc out h; simp [mergeBlobs] at h; subst h; exact ⟨[], rfl, by simp [mergeLayers]⟩
+  | cons b t ih =>
+    intro acc out h
+    simp only [mergeBlobs] at h
+    cases hd : decodeTile b with
+    | err => simp [hd] at h
+    | panic => simp [hd] at h
+    | ok tile =>
+      simp only [hd] at h
+      cases hm : mergeLayers acc tile.layers with
+      | err => simp [hm] at h
+      | panic => simp [hm] at h
+      | ok acc1 =>
+        simp only [hm] at h
+        obtain ⟨ts, h1, h2⟩ := ih acc1 out h
+        refine ⟨tile :: ts, by simp [decodeAll, hd, h1], ?_⟩
+        simp only [List.flatMap_cons]
+        exact (mergeLayers_append _ _ _ _).mpr ⟨acc1, hm, h2⟩
+
+/-- **C10.**  Whenever the merged operation delivers a tile, all present source blobs decode, and
+    with `ins` = their layers in source order: one output layer per distinct name in `ins`; each output
+    layer holds the concatenation, in source order, of the features of the equally named input layers
+    with id, geometry type, geometry bytes and property set preserved (sources whose tags are valid). -/
+theorem merged_tile_spec (srcs : List (Option Bytes)) (t : Tile) (h : mergedTile srcs = .ok (some t)) :
+    ∃ ts, decodeAll (srcs.filterMap id) = .ok ts ∧
+      ((∀ l ∈ ts.flatMap (·.layers), ∃ s, semF l = some s) →
+        (names t.layers).Nodup ∧ (∀ n, n ∈ names t.layers ↔ n ∈ names (ts.flatMap (·.layers))) ∧
+        ∀ l ∈ t.layers, ∃ s, semF l = some s ∧ concatSem (sel l.name (ts.flatMap (·.layers))) = some s) := by
+  unfold mergedTile at h
+  split at h
+  · simp at h
+  · cases hm : mergeBlobs [] (List.filterMap id srcs) with
+    | err => simp [hm] at h
+    | panic => simp [hm] at h
+    | ok ls =>
+      simp [hm] at h
+      subst h
+      obtain ⟨ts, h1, h2⟩ := mergeBlobs_layers _ _ _ hm
+      exact ⟨ts, h1, fun hv => merge_layers_features _ _ hv h2⟩
 
 end VtProps.C10
